@@ -32,8 +32,8 @@ theorem foldl_addrs {α : Type} (f : Kernel → α → Kernel) (hf : ∀ k a, (f
   repeat' (first | rfl | split | (dsimp only; split))
   all_goals first | rfl | simp
 
-@[simp] theorem handleEstablished_addrs (k : Kernel) (fd : Fd) (l r : Ep) (a f : Bool) :
-    (k.handleEstablished fd l r a f).addrs = k.addrs := by
+@[simp] theorem handleEstablished_addrs (k : Kernel) (fd : Fd) (l r : Ep) (sy a f : Bool) :
+    (k.handleEstablished fd l r sy a f).addrs = k.addrs := by
   unfold handleEstablished
   repeat' (first | rfl | split | (dsimp only; split))
   all_goals first | rfl | simp
